@@ -78,6 +78,32 @@ def execute(case):
     for t in (ts[0], ts[len(ts) // 2]):
         k = 1000
         ev.append(dict(base, op="periodic", t=t, res=_q(warm, t), res2=_q(warm, t + k * total), sig="periodic"))
+    # the cycle definition may change in place after it has been queried (element duration, element list, offset):
+    # the reported state must follow the CURRENT definition
+    from commonroad.scenario.traffic_light import TrafficLightCycleElement, TrafficLightState
+    cur = [dict(e) for e in case["cyc"]]
+    off = case["off"]
+    obj = warm
+    steps = [("duration", 0), ("append", 0), ("offset", 0), ("duration", -1), ("pop", 0)]
+    for kind, idx in steps:
+        if kind == "duration":
+            cur[idx]["d"] = cur[idx]["d"] % 3 + 1
+            obj.cycle_elements[idx].duration = cur[idx]["d"]
+        elif kind == "append":
+            cur.append({"d": 2, "c": "green" if cur[-1]["c"] != "green" else "red"})
+            obj.cycle_elements.append(TrafficLightCycleElement(TrafficLightState[_COL[cur[-1]["c"]]], 2))
+        elif kind == "pop":
+            if len(cur) < 2:
+                continue
+            cur.pop(0)
+            obj.cycle_elements.pop(0)
+        else:
+            off = off + 1
+            obj.time_offset = off
+        b2 = {"cyc": [dict(e) for e in cur], "off": off}
+        tot = sum(e["d"] for e in cur)
+        for t in range(max(0, off - 2), off + tot + 2):
+            ev.append(dict(b2, op="cycle_state", t=t, res=_q(obj, t), sig="after-" + kind))
     return {"ev": ev}
 
 
